@@ -10,10 +10,10 @@ theorem Cfg.std_all {c : Cfg} (h : c.std = true) :
     c.waitCtx = true ∧ c.waitClosed = true ∧ c.waitDone = true ∧ c.loopCtx = true ∧ c.loopClosed = true ∧
     c.loopAck = true ∧ c.loopTick = true ∧ c.waitClosedPref = .done ∧ c.loopClosedAck = true ∧
     c.ackUnknown = .cont ∧ c.ackDelete = true ∧ c.dropIfSent = true ∧ c.nopOnCancel = true ∧
-    c.deleteOnReturn = true ∧ c.removeAckOnExit = true := by
+    c.deleteOnReturn = true ∧ c.removeAckOnExit = true ∧ c.handlerLogFirst = true := by
   simp only [Cfg.std, Bool.and_eq_true, Bool.not_eq_true', beq_iff_eq] at h
-  obtain ⟨⟨⟨⟨⟨⟨⟨⟨⟨⟨⟨⟨⟨⟨⟨⟨⟨⟨⟨h1, h2⟩, h3⟩, h4⟩, h5⟩, h6⟩, h7⟩, h8⟩, h9⟩, h10⟩, h11⟩, h12⟩, h13⟩, h14⟩, h15⟩, h16⟩, h17⟩, h18⟩, h19⟩, h20⟩ := h
-  exact ⟨h1, h2, h3, h4, h5, h6, h7, h8, h9, h10, h11, h12, h13, h14, h15, h16, h17, h18, h19, h20⟩
+  obtain ⟨⟨⟨⟨⟨⟨⟨⟨⟨⟨⟨⟨⟨⟨⟨⟨⟨⟨⟨⟨h1, h2⟩, h3⟩, h4⟩, h5⟩, h6⟩, h7⟩, h8⟩, h9⟩, h10⟩, h11⟩, h12⟩, h13⟩, h14⟩, h15⟩, h16⟩, h17⟩, h18⟩, h19⟩, h20⟩, h21⟩ := h
+  exact ⟨h1, h2, h3, h4, h5, h6, h7, h8, h9, h10, h11, h12, h13, h14, h15, h16, h17, h18, h19, h20, h21⟩
 
 theorem Cfg.std_guard {c : Cfg} (h : c.std = true) : c.guard = true := (Cfg.std_all h).1
 theorem Cfg.std_guardCtx {c : Cfg} (h : c.std = true) : c.guardCtx = false := (Cfg.std_all h).2.1
@@ -34,7 +34,8 @@ theorem Cfg.std_ackDelete {c : Cfg} (h : c.std = true) : c.ackDelete = true := (
 theorem Cfg.std_dropIfSent {c : Cfg} (h : c.std = true) : c.dropIfSent = true := (Cfg.std_all h).2.2.2.2.2.2.2.2.2.2.2.2.2.2.2.2.1
 theorem Cfg.std_nopOnCancel {c : Cfg} (h : c.std = true) : c.nopOnCancel = true := (Cfg.std_all h).2.2.2.2.2.2.2.2.2.2.2.2.2.2.2.2.2.1
 theorem Cfg.std_deleteOnReturn {c : Cfg} (h : c.std = true) : c.deleteOnReturn = true := (Cfg.std_all h).2.2.2.2.2.2.2.2.2.2.2.2.2.2.2.2.2.2.1
-theorem Cfg.std_removeAckOnExit {c : Cfg} (h : c.std = true) : c.removeAckOnExit = true := (Cfg.std_all h).2.2.2.2.2.2.2.2.2.2.2.2.2.2.2.2.2.2.2
+theorem Cfg.std_removeAckOnExit {c : Cfg} (h : c.std = true) : c.removeAckOnExit = true := (Cfg.std_all h).2.2.2.2.2.2.2.2.2.2.2.2.2.2.2.2.2.2.2.1
+theorem Cfg.std_handlerLogFirst {c : Cfg} (h : c.std = true) : c.handlerLogFirst = true := (Cfg.std_all h).2.2.2.2.2.2.2.2.2.2.2.2.2.2.2.2.2.2.2.2
 
 /-- Rewrite a step hypothesis with what `cfg.std` says (removes the branches of other source shapes). -/
 macro "std_norm" hg:term "at" h:ident : tactic =>
